@@ -382,7 +382,7 @@ func cmdCheck(args []string) int {
 		if o.BudgetS == 0 {
 			o.BudgetS = 600
 			if thorough {
-				o.BudgetS = 1200
+				o.BudgetS = 600
 			}
 		}
 		res := explore(l.M, pkg.Func(ob.Fn), o)
